@@ -177,7 +177,7 @@ def main():
         # ------------------------------------------------------------ Maxwell
         for vi in range(2 if ctx.quick or ctx.worker else 3):
             for opname in ("magnetic_field", "electric_field"):
-                k = [1.1, 0.7 + 0.4j, 2.0][vi]
+                k = [1.1, 0.7 + 0.4j, 1.3 - 0.5j][vi]
                 if (ctx.quick or ctx.worker) and vi == 1 and opname == "electric_field":
                     continue   # quick: the complex wavenumber on the one-order identity only (the E ladder costs four assemblies)
                 cid = "%s:maxwell.%s:k=%s:v%d" % (pname, opname, k, vi)
